@@ -1,5 +1,205 @@
-(* C06 - what the property promises (definitions only). *)
+(* C06 - what the property promises (definitions only).
+
+   A coefficient that is a Stream stands for the sequence of its items; at the
+   instant n every coefficient is FROZEN at its n-th value and the filter is the
+   constant-coefficient filter the same arithmetic gives on those numbers
+   ("filter arithmetic acts on coefficient sequences element by element, a
+   constant stands for a constant stream").  Output n satisfies the difference
+   equation of the filter frozen at n; there is one read of every source per
+   output; the output ends at the first end of the input or of a coefficient
+   source. *)
 From Coq Require Import List Bool Arith ZArith QArith Qcanon.
 From AL Require Import Base.CaseLib C04.Model C06.Model.
 Import ListNotations.
 Open Scope Qc_scope.
+
+(* ----------------------------------------------- coefficients frozen at n *)
+(* sc_deps: the sources the coefficient is made of ([] for a number);
+   sc_val: its value at the instant (None: a division by zero) *)
+Record scoef := SC { sc_deps : list nat; sc_val : option Qc }.
+
+Definition olift2 (f : Qc -> Qc -> Qc) (a b : option Qc) : option Qc :=
+  match a, b with Some x, Some y => Some (f x y) | _, _ => None end.
+Definition odiv (a b : option Qc) : option Qc :=
+  match a, b with Some x, Some y => if Qc_eqb y 0 then None else Some (x / y) | _, _ => None end.
+Definition is_nil {A} (l : list A) : bool := match l with [] => true | _ => false end.
+Definition oq_eqb (a b : option Qc) : bool := option_eqb Qc_eqb a b.
+
+Definition s_add (a b : scoef) : scoef := SC (sc_deps a ++ sc_deps b) (olift2 Qcplus (sc_val a) (sc_val b)).
+Definition s_mul (a b : scoef) : scoef := SC (sc_deps a ++ sc_deps b) (olift2 Qcmult (sc_val a) (sc_val b)).
+Definition s_neg (a : scoef) : scoef := SC (sc_deps a) (option_map Qcopp (sc_val a)).
+Definition s_num (q : Qc) : scoef := SC [] (Some q).
+(* 1 / a : for a number, dividing by zero raises at once *)
+Definition s_recip (a : scoef) : option scoef :=
+  if is_nil (sc_deps a) && oq_eqb (sc_val a) (Some 0) then None
+  else Some (SC (sc_deps a) (odiv (Some 1) (sc_val a))).
+Definition s_zero_num (a : scoef) : bool := is_nil (sc_deps a) && oq_eqb (sc_val a) (Some 0).
+Definition s_equal (a b : scoef) : bool :=
+  is_nil (sc_deps a) && is_nil (sc_deps b) && oq_eqb (sc_val a) (sc_val b).
+
+(* the arithmetic of the library on frozen coefficients: the same generic Poly /
+   ZFilter algebra, instantiated at numbers (tee hubs do nothing) *)
+Definition frozen_alg : calg scoef :=
+  CAlg scoef s_add s_mul s_neg s_recip s_zero_num s_equal (fun _ _ _ a => a) s_num.
+
+(* the n-th value of a Stream expression, V i = the n-th item of source i *)
+Definition oapply (o : binop) (a b : option Qc) : option Qc :=
+  match o with OAdd => olift2 Qcplus a b | OMul => olift2 Qcmult a b | ODiv => odiv a b end.
+Fixpoint xval (V : nat -> Qc) (e : cx) : option Qc :=
+  match e with
+  | XSrc i => Some (V i)
+  | XTee _ _ _ p => xval V p
+  | XSS o l r => oapply o (xval V l) (xval V r)
+  | XSC o l q => oapply o (xval V l) (Some q)
+  | XCS o q r => oapply o (Some q) (xval V r)
+  | XNeg e1 => option_map Qcopp (xval V e1)
+  end.
+Fixpoint xdeps (e : cx) : list nat :=
+  match e with
+  | XSrc i => [i]
+  | XTee _ _ _ p => xdeps p
+  | XSS _ l r => xdeps l ++ xdeps r
+  | XSC _ l _ => xdeps l
+  | XCS _ _ r => xdeps r
+  | XNeg e1 => xdeps e1
+  end.
+
+Definition freeze (V : nat -> Qc) (c : coef) : scoef :=
+  match c with CNum q => s_num q | CStr e => SC (xdeps e) (xval V e) end.
+Definition freeze_data (V : nat -> Qc) (d : tdata) : list (Z * scoef) :=
+  map (fun kv => (fst kv, freeze V (snd kv))) d.
+Definition freeze_filt (V : nat -> Qc) (f : tfilt) : @gfilt scoef :=
+  TF (freeze_data V (t_num f)) (freeze_data V (t_den f)).
+Fixpoint freeze_exp (V : nat -> Qc) (e : fexp) : @gfexp scoef :=
+  match e with
+  | FBase n d => FBase (freeze_data V n) (freeze_data V d)
+  | FAdd a b => FAdd (freeze_exp V a) (freeze_exp V b)
+  | FSub a b => FSub (freeze_exp V a) (freeze_exp V b)
+  | FMul a b => FMul (freeze_exp V a) (freeze_exp V b)
+  | FNeg a => FNeg (freeze_exp V a)
+  | FMulR a c => FMulR (freeze_exp V a) (freeze V c)
+  | FMulL c a => FMulL (freeze V c) (freeze_exp V a)
+  | FAddR a c => FAddR (freeze_exp V a) (freeze V c)
+  | FAddL c a => FAddL (freeze V c) (freeze_exp V a)
+  | FDivR a c => FDivR (freeze_exp V a) (freeze V c)
+  end.
+
+(* the instant n of the sources *)
+Definition snapshot (S : sources) (n : nat) : nat -> Qc :=
+  fun i => match S i n with Some v => v | None => 0 end.
+
+(* the filter expression evaluated on the coefficients frozen at n *)
+Definition frozen_at (S : sources) (e : fexp) (n : nat) : bres (@gfilt scoef) :=
+  build frozen_alg (freeze_exp (snapshot S n) e) 0.
+
+(* ----------------------------------------------------- difference equation *)
+(* xh / yh: the previous inputs / outputs, most recent first (x(n-1), x(n-2), ...);
+   older than the beginning: zero / the memory items *)
+Definition hist (h : list Qc) (dflt : Qc) (k : Z) : Qc := nth (Z.to_nat k - 1) h dflt.
+
+Definition osum (l : list (option Qc)) : option Qc := fold_right (olift2 Qcplus) (Some 0) l.
+
+(* sum_k b_k[n] x(n-k)  -  sum_{k>=1} a_k[n] y(n-k) *)
+Definition rhs (F : @gfilt scoef) (x : Qc) (xh yh : list Qc) (zero : Qc) : option Qc :=
+  olift2 Qcminus
+    (osum (map (fun kv => olift2 Qcmult (sc_val (snd kv))
+                            (Some (if (fst kv =? 0)%Z then x else hist xh zero (fst kv)))) (t_num F)))
+    (osum (map (fun kv => if (fst kv =? 0)%Z then Some 0
+                          else olift2 Qcmult (sc_val (snd kv)) (Some (hist yh zero (fst kv)))) (t_den F))).
+
+Definition a0_of (F : @gfilt scoef) : option Qc := sc_val (t_getitem frozen_alg (t_den F) 0).
+
+(* a0[n] y = rhs, when every coefficient is defined at n and a0[n] <> 0;
+   None: the text says nothing about this instant *)
+Definition equation (F : @gfilt scoef) (x : Qc) (xh yh : list Qc) (zero y : Qc) : option bool :=
+  match a0_of F, rhs F x xh yh zero with
+  | Some a0, Some r => if Qc_eqb a0 0 then None else Some (Qc_eqb (a0 * y) r)
+  | _, _ => None
+  end.
+
+(* the coefficient sources of the filter (the input is source 0) *)
+Definition fdeps (F : @gfilt scoef) : list nat :=
+  nodup Nat.eq_dec (flat_map (fun kv => sc_deps (snd kv)) (t_num F ++ t_den F)).
+
+Definition noncausal (F : @gfilt scoef) : bool :=
+  existsb (fun kv => (fst kv <? 0)%Z) (t_num F ++ t_den F).
+
+(* ---------------------------------------------------------- trace checker *)
+(* the maximal prefix of reads of a trace *)
+Fixpoint split_reads (tr : list event) : list (nat * option Qc) * list event :=
+  match tr with
+  | EvRead i v :: r => let '(rs, rest) := split_reads r in ((i, v) :: rs, rest)
+  | _ => ([], tr)
+  end.
+
+Fixpoint nodupb (l : list nat) : bool :=
+  match l with [] => true | x :: r => negb (existsb (Nat.eqb x) r) && nodupb r end.
+Definition subset (a b : list nat) : bool := forallb (fun x => existsb (Nat.eqb x) b) a.
+
+(* every read is of a source of the filter, at most once each, and delivers that
+   source's n-th item *)
+Definition reads_ok (S : sources) (n : nat) (srcs : list nat) (rs : list (nat * option Qc)) : bool :=
+  nodupb (map fst rs) && subset (map fst rs) srcs &&
+  forallb (fun iv => oq_eqb (snd iv) (S (fst iv) n)) rs.
+
+Definition all_some (rs : list (nat * option Qc)) : bool :=
+  forallb (fun iv => match snd iv with Some _ => true | None => false end) rs.
+
+(* one source ended: it is the last read of the round, the earlier ones delivered *)
+Definition ends_with_none (rs : list (nat * option Qc)) : bool :=
+  match rev rs with
+  | (_, None) :: before => all_some before
+  | _ => false
+  end.
+
+(* at the instant n the text says nothing: a coefficient made of delivering
+   sources is undefined (a division by zero) or the gain made of delivering sources is 0 *)
+Definition delivering (S : sources) (n : nat) (c : scoef) : bool :=
+  forallb (fun i => match S i n with Some _ => true | None => false end) (sc_deps c).
+Definition silent_at (S : sources) (n : nat) (F : @gfilt scoef) : bool :=
+  existsb (fun kv => delivering S n (snd kv) && oq_eqb (sc_val (snd kv)) None) (t_num F ++ t_den F) ||
+  (let a0 := t_getitem frozen_alg (t_den F) 0 in delivering S n a0 && oq_eqb (sc_val a0) (Some 0)).
+
+(* fuel: what the consumer still asks for; n: the instant; xh, yh: histories *)
+Fixpoint trace_ok (S : sources) (e : fexp) (zero : Qc) (fuel n : nat) (xh yh : list Qc)
+                  (tr : list event) : bool :=
+  match fuel with
+  | O => is_nil tr                               (* nobody asks: nothing happens *)
+  | Datatypes.S fuel' =>
+      match frozen_at S e n with
+      | BErr _ => true
+      | BOk F _ =>
+          let srcs := 0%nat :: fdeps F in
+          let '(rs, rest) := split_reads tr in
+          reads_ok S n srcs rs &&
+          if forallb (fun i => match S i n with Some _ => true | None => false end) srcs
+          then (* everything delivers: each source exactly once, then output n *)
+            match rest with
+            | EvYield y :: rest' =>
+                let x := snapshot S n 0 in
+                subset srcs (map fst rs) &&
+                match equation F x xh yh zero y with
+                | Some ok => ok && trace_ok S e zero fuel' (Datatypes.S n) (x :: xh) (y :: yh) rest'
+                | None => true                   (* a zero or undefined gain: no claim *)
+                end
+            | [EvRaise XZeroDiv] => silent_at S n F     (* division by a zero gain: no claim *)
+            | _ => false
+            end
+          else (* the input or a coefficient source has ended: a clean stop *)
+            match rest with
+            | [EvStop] => ends_with_none rs
+            | [EvRaise XZeroDiv] => silent_at S n F
+            | _ => false
+            end
+      end
+  end.
+
+(* the whole observation of  list(islice(expr(seq, memory, zero), limit))  *)
+Definition spec_run (S : sources) (e : fexp) (mem : memarg) (zero : Qc) (limit : nat)
+                    (tr : list event) : bool :=
+  match frozen_at S e 0 with
+  | BErr _ => true
+  | BOk F _ =>
+      noncausal F || match a0_of F with Some a0 => is_nil (sc_deps (t_getitem frozen_alg (t_den F) 0)) && Qc_eqb a0 0 | None => false end ||
+      trace_ok S e zero limit 0 [] (normalise_memory (tdense_len (t_den F) - 1) zero mem) tr
+  end.
